@@ -260,6 +260,12 @@ impl<NS: crate::NameStyle, T: InflectableEntry<NS>, F: FlagConstructor> Inflecta
             },
         );
     }
+
+    fn sample_group(
+        &self,
+    ) -> impl Iterator<Item = metrique_writer_core::entry::SampleGroupElement> {
+        <T as InflectableEntry<NS>>::sample_group(self)
+    }
 }
 
 #[diagnostic::do_not_recommend]
@@ -268,6 +274,12 @@ impl<NS: crate::NameStyle, T: InflectableEntry<NS>, const N: usize> InflectableE
 {
     fn write<'a>(&'a self, writer: &mut impl metrique_writer_core::EntryWriter<'a>) {
         <T as InflectableEntry<NS>>::write(self, &mut self.entry_writer_wrapper(writer))
+    }
+
+    fn sample_group(
+        &self,
+    ) -> impl Iterator<Item = metrique_writer_core::entry::SampleGroupElement> {
+        <T as InflectableEntry<NS>>::sample_group(self)
     }
 }
 
